@@ -265,7 +265,13 @@ def rand_loop(rng):
     w = float(rng.randint(20, 120))
     h = float(rng.randint(40, 200))
     P = [(x0, y0), (x0 + w + rng.randint(10, 80), y0 + h), (x0 - rng.randint(10, 80), y0 + h + rng.randint(-20, 20)), (x0 + w, y0 + rng.randint(-10, 10))]
-    return [(float(x), float(y)) for x, y in P]
+    P = [(float(x), float(y)) for x, y in P]
+    # either rotational sense (mirror image) and either direction of travel
+    if rng.random() < 0.5:
+        P = [(x, 2 * y0 - y) for x, y in P]
+    if rng.random() < 0.5:
+        P = P[::-1]
+    return P
 
 
 def rand_closed(rng):
@@ -371,11 +377,49 @@ def correspondence(ctx):
     return stats, dis + d2
 
 
+def check_after_edit(P, seed):
+    """crossings are those of the curve as it is NOW: ask for the box and for crossings, change the control points in place (one of the
+    routes of oracles/common.edit_in_place, or balance()), then intersect with a short curve laid through a point of the EDITED curve;
+    the answer must be the answer of a fresh segment with the same control points"""
+    import random
+    rng = random.Random(seed)
+    A = oc.mkseg(P)
+    A.bounds()
+    A.intersections(oc.mkseg([(P[0][0] + 1000.0, P[0][1]), (P[0][0] + 1010.0, P[0][1] + 7.0), (P[0][0] + 1020.0, P[0][1])]))
+    if len(P) == 4 and rng.random() < 0.3:
+        A.balance()
+        route = "balance"
+    else:
+        route, _ = oc.edit_in_place(A, rng)
+    new = [(q.x, q.y) for q in A.points]
+    t = rng.uniform(0.25, 0.75)
+    c = cr.bez(new, t)
+    eps = 1e-3
+    c2 = cr.bez(new, t + eps)
+    dx, dy = c2[0] - c[0], c2[1] - c[1]
+    n = math.hypot(dx, dy)
+    if n == 0:
+        return None
+    nx, ny = -dy / n, dx / n                     # unit normal of the edited curve at t
+    h = max(1.0, 0.05 * oc.extent(new))
+    Q = [(c[0] - nx * h, c[1] - ny * h), (c[0] + ny * h * 0.1, c[1] - nx * h * 0.1), (c[0] + nx * h, c[1] + ny * h)]
+    B = oc.mkseg(Q)
+    key = lambda l: sorted((round(i.t1, 6), round(i.t2, 6)) for i in l)
+    got = key(A.intersections(B))
+    want = key(oc.mkseg(new).intersections(oc.mkseg(Q)))
+    if got != want:
+        return "after changing the control points in place (%s) the curve %r meets %r at %r; a fresh segment with the same control points at %r (stale state)" % (
+            route, new, Q, got, want)
+    return None
+
+
 def run_one(kind, inp):
     if kind == "pair":
         return check_pair([tuple(p) for p in inp["P"]], [tuple(p) for p in inp["Q"]])
     if kind == "loop":
         return check_loop([tuple(p) for p in inp["P"]])
+    if kind == "edit":
+        return check_after_edit([tuple(p) for p in inp["P"]], inp["seed"])
     return check_path([[tuple(p) for p in s] for s in inp["segs"]])
 
 
@@ -395,6 +439,8 @@ def search(ctx, budget):
             kind, inp = "pair", {"P": P, "Q": Q}
         elif r == 3:
             kind, inp = "loop", {"P": rand_loop(rng) if rng.random() < 0.7 else rand_curve(rng, "int")[:4] if False else rand_loop(rng)}
+        elif r == 4 and i % 12 == 4:
+            kind, inp = "edit", {"P": rand_curve(rng), "seed": rng.randrange(1 << 30)}
         elif r == 4:
             P = oc.rand_seg_pts(rng, 4, rng.choice(["int", "grid", "float"]))
             kind, inp = "loop", {"P": P}
